@@ -166,7 +166,7 @@ pub const PROPS: &[PropSpec] = &[
         classes: &["cas/", "crash/cas"],
         nontrivial: &[&["http:append-ok", "cas:post", "image:kill"]],
         must_reach: &["http:append-ok", "http:chunked-body", "http:body>8KiB", "http:bodyless-append", "http:client-disconnect", "cas:post", "cas:get", "cas:empty-post", "cas:get-unknown", "image:kill", "cas:sized", "cas:stream"],
-        quick_runs: 900,
+        quick_runs: 560,
         thorough_runs: 50_000,
         rule: "byte strings (empty, 1 byte, non-UTF-8, 8191/8192/8193 bytes, 100 KB) written through POST /{topic} (fixed-length and chunked bodies split over many transport writes, some cut by a disconnect) and POST /cas, read back through GET /cas and the Store; a monitor inside append checks at the instant a frame with a hash becomes observable that its content is already retrievable; one run in six is an E1 crash-image workload (content of every visible frame after a process kill); non-trivial = content was written; distinct = distinct trace hash",
     },
